@@ -15,6 +15,17 @@ import json
 def vint(n): return {"t": "int", "n": n}
 def vbool(b): return {"t": "bool", "b": bool(b)}
 VNONE = {"t": "none"}
+def vfloat(x):
+    """A float the spec can hold exactly: n / 2^e with |n| <= 30000 and e <= 6 (None otherwise)."""
+    x = float(x)
+    if x != x or x in (float("inf"), float("-inf")) or (x == 0 and str(x).startswith("-")):
+        return None
+    num, den = x.as_integer_ratio()
+    e = den.bit_length() - 1
+    if den != 1 << e or e > 6 or abs(num) > 30000:
+        return None
+    return {"t": "float", "n": num, "e": e}
+def float_of(v): return v["n"] / (1 << v["e"])
 def vstr(text, origin="data", safe=False):
     return {"t": "str", "s": ([{"a": text, "e": 0, "o": origin}] if text != "" else []), "m": safe}
 def vlist(items, tup=False): return {"t": "list", "v": list(items), "tup": tup}
@@ -33,6 +44,10 @@ GLOBALS = {"range": {"t": "builtin", "n": "range"}, "namespace": {"t": "builtin"
 def Const(v):
     if isinstance(v, bool): return {"k": "const", "v": vbool(v)}
     if isinstance(v, int): return {"k": "const", "v": vint(v)}
+    if isinstance(v, float):
+        f = vfloat(v)
+        if f is None or v < 0: raise ValueError(f"not an exact small float literal: {v!r}")
+        return {"k": "const", "v": f}
     if v is None: return {"k": "const", "v": VNONE}
     if isinstance(v, str): return {"k": "const", "v": vstr(v, "lit")}
     raise TypeError(v)
@@ -204,6 +219,7 @@ def seg_text(segs):
 def unparse_value(v):
     t = v["t"]
     if t == "int": return str(v["n"]) if v["n"] >= 0 else f"({v['n']})"
+    if t == "float": return repr(float_of(v)) if v["n"] >= 0 else f"({float_of(v)!r})"
     if t == "bool": return "true" if v["b"] else "false"
     if t == "none": return "none"
     if t == "str": return lit_str(seg_text(v["s"]))
@@ -455,6 +471,7 @@ def to_py(v, objs, log, cache=None, async_fns=False):
     cache = {} if cache is None else cache
     t = v["t"]
     if t == "int": return v["n"]
+    if t == "float": return float_of(v)
     if t == "bool": return v["b"]
     if t == "none": return None
     if t == "str":
